@@ -348,6 +348,19 @@ def conversation(run, pv, rng, length, threshold, abrupt, label,
                                    first_difference=first,
                                    got=got[first:first + 2],
                                    expected=exp[first:first + 2]))
+            if play_compress and play_threshold == 0:
+                # the threshold announced in play state applies to everything
+                # the client writes afterwards: at 0 every frame is compressed
+                plain = [pid for pid, _p, info in (state['frames'] or [])
+                         if not info['compressed']]
+                run.count('play_state_compression.client_frames_checked',
+                          len(state['frames'] or []))
+                if plain:
+                    run.violation('play/compression-threshold-not-applied',
+                                  'after set-compression(0) in play state the '
+                                  'client still wrote frames without '
+                                  'compressing them', dict(
+                                      w, uncompressed_ids=plain[:4]))
             if not io.eof:
                 run.violation('play/not-closed', 'client did not close the '
                               'connection after the disconnect packet', w)
